@@ -270,8 +270,29 @@ CheckAttr(t) ==
         ELSE IF drift # {} THEN "drift:C19 attribute life cycle: observation satisfies the property but differs from the model at " \o msg(any(drift))
         ELSE "ok"
 
+\* ------------------------------------------------------------------ pairing of strengths and targets
+\* [k |-> "pair", names, rank, s, t, c, e, n, cls, v, frac]  one call of a DUCCIO built with the targets dict
+\* in the caller's insertion order `names` (rank = alphabetical ranks, computed by the harness from the names)
+\* and the positional final_strengths s; everything in caller order.  Property: with the final strength in
+\* force (2e >= n) and at epoch 0 (1%) the value is sum_i s[i] * excess_i, i = position in the CALLER's dict.
+CheckPair(t) ==
+    LET pos  == PairedPen("position", t.rank, t.s, t.c, t.t, t.e, t.n) * VU
+        srt  == PairedPen("sorted", t.rank, t.s, t.c, t.t, t.e, t.n) * VU
+        what == "targets built in the order " \o ToString(t.names) \o " (alphabetical ranks " \o ToString(t.rank)
+                   \o "), final_strengths " \o ToString(t.s) \o " u, costs " \o ToString(t.c) \o ", targets "
+                   \o ToString(t.t) \o ", epoch " \o ToString(t.e) \o "/" \o ToString(t.n) \o ": value "
+                   \o ToString(t.v) \o "/64 u, expected " \o ToString(pos) \o "/64 u"
+                   \o (IF t.v = srt /\ srt # pos THEN " (observed = strengths paired with the alphabetically sorted names)" ELSE "")
+    IN  IF ~IsPermutation(t.rank) \/ Len(t.rank) # Len(t.s) THEN "trace: pair shape"
+        ELSE IF t.cls # "fin" THEN "C19.finite: value is " \o t.cls \o " for " \o what
+        ELSE IF t.v # pos /\ (2 * t.e >= t.n \/ t.e = 0)
+        THEN "C19.pairing: final_strengths[i] does not weight the i-th metric of the caller's targets dict; " \o what
+        ELSE IF t.v # pos \/ t.frac THEN "drift:C19 pairing: " \o what
+        ELSE "ok"
+
 Check(t) ==
     IF ~Has(t, "k") THEN "trace: missing kind"
+    ELSE IF t.k = "pair" THEN CheckPair(t)
     ELSE IF t.k = "attr" THEN CheckAttr(t)
     ELSE IF t.k = "baseq" THEN CheckBaseQ(t)
     ELSE IF t.k = "life" THEN CheckLife(t)
